@@ -247,11 +247,11 @@ static std::vector<int> smallProbes(const std::vector<int>& keys) {
         hi = *std::max_element(keys.begin(), keys.end());
     }
     std::vector<int> p;
-    if ((long)hi - lo <= 40) {
+    if ((long)hi - lo <= 24) {
         for (int q = lo - 1; q <= hi + 1; q++) p.push_back(q);
     } else {
         std::set<int> s{INT_MIN, INT_MAX, 0, -1, 1};
-        for (std::size_t i = 0; i < keys.size(); i += std::max<std::size_t>(1, keys.size() / 24)) {
+        for (std::size_t i = 0; i < keys.size(); i += std::max<std::size_t>(1, keys.size() / 7)) {
             s.insert(keys[i]);
             if (keys[i] > INT_MIN) s.insert(keys[i] - 1);
             if (keys[i] < INT_MAX) s.insert(keys[i] + 1);
